@@ -45,3 +45,22 @@ def _(self):
     ensures((result is None) == (not any(self.cn_configs[c].kind == CNConfigType.DELETION for c in self.cn_configs)))
     ensures(implies(result is not None, result in self.cn_configs and self.cn_configs[result].kind == CNConfigType.DELETION))
     modifies()
+
+
+# ------------------------------------------------------------------------------------------------
+# The statement of Gene._init_regions that builds the position index (slice, config.SLICES): it ESTABLISHES the
+# invariant gene_wf that every look-up contract assumes (region_at, has_coverage, position_cn, the model builders).
+
+@contract("aldy.gene.Gene._init_regions@region-index", native=False)
+def _(self):
+    types(self="Gene")
+    # every position of every region of every gene copy is indexed, with the copy and region it lies in
+    ensures(gene_wf(self), label="index-well-formed")
+    ensures(forall(lambda p=int: (p in self._region_at) == exists(
+        lambda g=int, r=str: 0 <= g and g < len(self.regions) and r in self.regions[g]
+        and self.regions[g][r].start <= p and p < self.regions[g][r].end)), label="indexed-iff-inside-a-region")
+    ensures(forall(lambda p=int: implies(p in self._region_at,
+                                         self.regions[self._region_at[p][0]][self._region_at[p][1]].start <= p
+                                         and p < self.regions[self._region_at[p][0]][self._region_at[p][1]].end)),
+            label="index-names-a-region-containing-the-position")
+    modifies(self._region_at)
